@@ -53,10 +53,16 @@ const char TypeErrorMsg[] =
 // This is a standard union-find structure
 template<typename It>
 int find(It data, int i) {
-    if (data[i] == i) return i;
-    int j = find(data, data[i]);
-    data[i] = j;
-    return j;
+    // iterative (two passes): a recursive version overflows the stack on
+    // long chains, e.g., a single row of a million foreground pixels
+    int root = i;
+    while (data[root] != root) root = data[root];
+    while (data[i] != root) {
+        const int next = data[i];
+        data[i] = root;
+        i = next;
+    }
+    return root;
 }
 template<typename It>
 void compress(It data, int i) {
